@@ -79,7 +79,7 @@ def as_violation(got, want):
 def run(tier, seed, out, drv, facts):
     rng = Rng(seed, "C16")
     thorough = tier == "thorough"
-    n_rand = 10000 if thorough else 500
+    n_rand = 40000 if thorough else 500
     lts = leaf_types()
     for i in range(n_rand):
         name, lt = rng.choice(lts)
